@@ -241,3 +241,37 @@ def solve_model(path, extra=(), timeout_ms=5000):
         if r == z3.unsat:
             return None, 'unsat'
     return None, 'unknown'
+
+
+def solve_native(year, forms, inputs, field_names=(), max_prompts=5000):
+    """End-to-end run of the real Solver. `inputs`: full input name -> string.
+    Inputs the run asks for that are not given are answered with type defaults
+    (0, no, '', first enum member / empty).  Returns dict with solved, values, diagnostics."""
+    extract.setup_path()
+    from habutax import inputs as I, solver as S, forms as F
+    cfg = configparser.ConfigParser()
+    store = I.InputStore(cfg)
+    asked = []
+
+    def prompt(missing, needed_by):
+        name = missing.name()
+        asked.append(name)
+        if len(asked) > max_prompts:
+            return (None, False)
+        if name in inputs:
+            return (str(inputs[name]), True)
+        kind, ecls, opt = linevc.input_kind(missing)
+        d = input_string(missing, default_for(kind, ecls, opt))
+        for cand in (d, '000000000', '011000015', '1', 'a', 'NC'):
+            if missing.valid(cand):
+                return (cand, True)
+        return (None, False)
+    s = S.Solver(store, F.available_forms[year], prompt=prompt)
+    try:
+        ok = s.solve(list(forms), field_names=list(field_names))
+    except BaseException as ex:
+        if isinstance(ex, (KeyboardInterrupt, SystemExit)):
+            raise
+        return {'raised': f'{type(ex).__name__}: {str(ex)[:300]}', 'asked': len(asked)}
+    return {'solved': ok, 'values': dict(s._v.values), 'unimplemented': s.unimplemented_fields(),
+            'unmet_inputs': s.unmet_input_dependencies(), 'unmet_fields': s.unmet_field_dependencies(), 'asked': len(asked)}
